@@ -33,7 +33,7 @@ CHECKS = {
    ref='DESIGN.md 3/C08'),
  'C09': dict(
    technique='timestamped history checker + forced-window schedules + sanitizers: delayed sends/cancels recorded with a monotonic clock (plain, TSan, ASan builds); scripts park the timer thread at schedule points between fire and deliver while <cancel>/destruction runs; hangs reported with gdb stack samples',
-   text='Exploration: timing charts with 4-14 delayed sends and cancels (not-early and exactly-once hard, order/cancel rules with 50 ms margin) and four forced race scripts; outcome of a racing cancel must be 0 or 1 delivery without deadlock, crash, double delivery or sanitizer report. Charts also send to #_internal (must wake a sleeping stepper and keep due order), to targets that do not exist (error.communication, no abort on the timer thread) and execute one send id several times before cancelling it.',
+   text='Exploration: timing charts with 4-14 delayed sends and cancels (not-early and exactly-once hard, order/cancel rules with 50 ms margin) and eight forced-window scripts (cancel, reset() and destruction while the timer thread sits in a delivery, send during a callback); outcome of a racing cancel must be 0 or 1 delivery without deadlock, crash, double delivery or sanitizer report. Charts also send to #_internal (must wake a sleeping stepper and keep due order), to targets that do not exist (error.communication, no abort on the timer thread) and execute one send id several times before cancelling it; delays come as 50ms, 50, 0.050s, .050s, '50 ms' and delayexpr, ids also through idlocation + sendidexpr; external events are only taken after a stable notice, also behind events the timer thread put into the internal queue (per-queue due order).',
    note='Real time is involved: only lower bounds and generous margins are judged. A script whose window is never reached makes the run inconclusive.',
    ref='DESIGN.md 3/C09'),
  'C10': dict(
@@ -73,7 +73,7 @@ CHECKS = {
  'C04': dict(
    technique='differential runtime monitor on the real artefact: ChartToC output compiled (gcc -fsanitize=address,undefined,bounds and plain -O2, emitted sizing macros) and driven by a C scaffold with the same history as the interpreter; projected histories compared; sanitizer reports in the emitted step function',
    text='Exploration: seeded random documents (+ documents padded to the byte boundaries of the sizing macros) are transpiled, compiled twice and executed; dequeued events, log lines with values, configuration after each micro step and final data must equal the interpreter trace; ASan/UBSan(bounds) watch the emitted code.',
-   note='Trusted: scaffold harness/genc_main.c (integer datamodel fragment, reference matcher), gcc sanitizers. Invoke only compiled, not executed.',
+   note='Trusted: scaffold harness/genc_main.c (integer datamodel fragment, reference matcher), gcc sanitizers. Invoked (nested) machines are driven inside the scaffold with synthetic events for memory safety under the shared sizing macros; their behaviour is not compared.',
    ref='DESIGN.md 3/C04'),
  'C05': dict(
    technique='runtime oracle comparison on real transformer output: annotated DOM and the tables embedded in emitted C/Promela/VHDL parsed and compared with relations recomputed from the source document; transformers run under ASan/UBSan',
